@@ -224,14 +224,20 @@ func (c *countFs) OpenFile(name string, flag int, perm os.FileMode) (afero.File,
 	return c.wrap(name, f), nil
 }
 
+// countFile counts the operations on the ammo file and gives it the semantics of a real *os.File where the in-memory
+// file is more forgiving: after Close every Read / Seek fails, and a second Close fails with os.ErrClosed.
 type countFile struct {
 	afero.File
-	io *cellIO
+	io     *cellIO
+	closed atomic.Bool
 }
 
 func (f *countFile) Read(p []byte) (int, error) {
 	if f.io.op() {
 		return 0, errKilled
+	}
+	if f.closed.Load() {
+		return 0, os.ErrClosed
 	}
 	return f.File.Read(p)
 }
@@ -240,7 +246,17 @@ func (f *countFile) Seek(off int64, whence int) (int64, error) {
 	if f.io.op() {
 		return 0, errKilled
 	}
+	if f.closed.Load() {
+		return 0, os.ErrClosed
+	}
 	return f.File.Seek(off, whence)
+}
+
+func (f *countFile) Close() error {
+	if f.closed.Swap(true) {
+		return os.ErrClosed
+	}
+	return f.File.Close()
 }
 
 // FS is the filesystem every cell's ammo file lives in.
